@@ -534,6 +534,11 @@ pub fn run_c36(batch: &str, tape: &mut Tape, rep: &mut Report) {
     let mut uniq = 0u64;
     let mut crashes = 0u64;
     let crash_budget = if batch == "clean-restarts" { 0 } else { tape.range(1, 3) };
+    // A lagging follower: entries the leader appended while this node was cut off (`lag_from` = first index it
+    // misses). It can only catch up by installing the leader's snapshot, which lies AHEAD of its log; openraft
+    // then purges the log up to the snapshot (`pending_purge`) before anything else is appended.
+    let mut lag_from: Option<u64> = None;
+    let mut pending_purge: Option<LogId<NodeId>> = None;
     for step in 0..nops {
         // maybe arm a crash inside the next operation (crash points are counted globally)
         let armed = crashes < crash_budget && tape.chance(1, 4);
@@ -545,13 +550,28 @@ pub fn run_c36(batch: &str, tape: &mut Tape, rep: &mut Report) {
         let next_index = r.m.history.keys().last().map(|k| k + 1).unwrap_or(0);
         let mut what = String::new();
         let op_result = std::panic::catch_unwind(std::panic::AssertUnwindSafe(|| {
-            match tape.draw(10) {
-                0..=2 => {
+            let choice = if pending_purge.is_some() { 100 } else { tape.draw(11) };
+            match choice {
+                100 => {
+                    let id = pending_purge.take().unwrap();
+                    what = format!("purge_logs_upto {} (what openraft does right after installing a snapshot ahead of the log)", id.index);
+                    r.purge(id);
+                    lag_from = None;
+                }
+                0..=2 | 10 => {
                     let k = tape.range(1, 4);
                     let ents: Vec<Entry<TypeConfig>> = (0..k).map(|i| { uniq += 1; mk_entry(tape, term, next_index + i, uniq) }).collect();
-                    what = format!("append {:?}", ents.iter().map(|e| e.log_id.index).collect::<Vec<_>>());
-                    leader.append(ents.clone());
-                    r.append(ents);
+                    if choice == 10 || lag_from.is_some() {
+                        // the node is cut off: only the leader gets these entries
+                        what = format!("(cut off) the leader alone appends {:?}", ents.iter().map(|e| e.log_id.index).collect::<Vec<_>>());
+                        if lag_from.is_none() { lag_from = Some(next_index); }
+                        for e in &ents { r.m.history.insert(e.log_id.index, e.clone()); }
+                        leader.append(ents);
+                    } else {
+                        what = format!("append {:?}", ents.iter().map(|e| e.log_id.index).collect::<Vec<_>>());
+                        leader.append(ents.clone());
+                        r.append(ents);
+                    }
                 }
                 3 | 4 => {
                     let k = tape.range(1, 4);
@@ -570,10 +590,14 @@ pub fn run_c36(batch: &str, tape: &mut Tape, rep: &mut Report) {
                     while leader.apply(4) > 0 {}
                     if leader.m.applied > r.m.applied {
                         let s = leader.build_snapshot();
-                        what = format!("install_snapshot at {:?}", s.meta.last_log_id.map(|l| l.index));
+                        let ahead = lag_from.is_some() && s.meta.last_log_id.map(|l| l.index) >= lag_from;
+                        what = format!("install_snapshot at {:?}{}", s.meta.last_log_id.map(|l| l.index), if ahead { " (ahead of the local log)" } else { "" });
+                        if ahead { pending_purge = s.meta.last_log_id; }
                         r.install(&s);
                     }
                 }
+                7 if lag_from.is_some() => {}
+                8 if lag_from.is_some() => {}
                 7 => {
                     if let Some(hi) = r.snap_index {
                         let lo = r.m.last_purged.map(|p| p.index + 1).unwrap_or(0);
@@ -696,6 +720,9 @@ pub fn run_c36(batch: &str, tape: &mut Tape, rep: &mut Report) {
         m.log = ents.into_iter().map(|e| (e.log_id.index, e)).collect();
         m.history = after.history.clone();
         r.m = m;
+        // an interrupted install that did not take effect is not followed by the purge
+        if let Some(p) = pending_purge { if r.m.applied != Some(p) { pending_purge = None; } }
+        if pending_purge.is_some() { rep.probe("restart-between-snapshot-install-and-purge"); }
         if rep.violated() { break; }
         if leader.m.history.len() != r.m.history.len() {
             // keep the in-memory leader on the same history
